@@ -298,6 +298,7 @@ def run(ctx):
                 ctx.violation('%s returns distance %g whose point %s is not on the surface (residual %.3g) for %s' % (kind, d, p.tolist(), resid, name),
                               rec, {'fn': kind, 'api': 'numpy', 'what': 'wrong_number', 'case': name})
     from .gensphere import check_generated_sphere; check_generated_sphere(ctx, wd)   # torch intersect_w_sphere vs Generated/SphereSearch.lean + OdakModel/SphereSearch.lean
+    from .gencylinder import check_generated_cylinder; check_generated_cylinder(ctx)   # NumPy intersect_w_cylinder vs Generated/CylinderGen.lean + OdakModel/Cylinder.lean
     wd.close()
 
 
